@@ -80,6 +80,12 @@ def gen_cases(tier: str, seed: int) -> list[dict]:
         cases.append({"kind": "dataset", "fmt": fmt, "comp": comp, "algs": list(algs),
                       "n": rng.randint(3, 40), "eps": rng.randint(1, 7), "nested": k % 2 == 1,
                       "big": k % 4 == 0, "cseed": rng.randrange(1 << 30)})
+    n_conc = 10 if tier == "quick" else 120
+    for _ in range(n_conc):
+        cases.append({"kind": "concurrent", "threads": rng.choice([2, 3, 4, 8]),
+                      "sizes": [rng.choice([1, 1000, BUF - 1, BUF + 1, 3 * BUF + 7, 5 * BUF]) for _ in range(6)],
+                      "algs": rng.sample(ALGS, rng.randint(1, 4)), "cseed": rng.randrange(1 << 30),
+                      "yield": rng.random() < 0.7})
     if tier == "quick":
         rng.shuffle(cases)
     return cases
@@ -116,6 +122,8 @@ def run_case(case: dict) -> dict:
     try:
         if case["kind"] == "file":
             return run_file(case, work)
+        if case["kind"] == "concurrent":
+            return run_concurrent(case, work)
         return run_dataset(case, work)
     finally:
         common.rm(work)
@@ -173,6 +181,52 @@ def run_file(case: dict, work: Path) -> dict:
     return {"sig": [case["size"], case["content"], case["algs"]], "nontrivial": True,
             "violations": violations, "obs": {**obs, "size_classes": [size_class]},
             "sample": {"size": case["size"], "algs": list(algs), "digests": list(result)[:3]}}
+
+
+def run_concurrent(case: dict, work: Path) -> dict:
+    """Several threads hash different files at the same time (what concurrent check() calls or threaded
+    fillers do); each result must still be the digest of *its* file."""
+    import contextlib
+    import threading
+    import sedpack.io.utils as utils
+    from rtmon import audit as auditor
+    from rtmon.monitors import contracts, delays
+    algs = tuple(case["algs"])
+    files = []
+    for k, size in enumerate(case["sizes"]):
+        path = work / f"f{k}.bin"
+        data = make_content(size, "random", case["cseed"] + k)
+        path.write_bytes(data)
+        files.append((path, tuple(auditor.digest(data, a) for a in algs)))
+    violations, results = [], []
+    barrier = threading.Barrier(case["threads"])
+
+    def worker(tid: int) -> None:
+        barrier.wait()
+        for rep in range(3):
+            for path, want in files[tid % len(files):] + files[:tid % len(files)]:
+                got = utils.hash_checksums(file_path=path, hashes=algs)
+                results.append((path.name, tuple(got) == want, tid))
+
+    context = delays.hash_yield(case["cseed"]) if case["yield"] else contextlib.nullcontext({"yields": 0})
+    with context as stats:
+        threads = [threading.Thread(target=worker, args=(t,)) for t in range(case["threads"])]
+        for thread in threads:
+            thread.start()
+        for thread in threads:
+            thread.join()
+    wrong = [r for r in results if not r[1]]
+    if wrong:
+        violations.append({"key": "digest-wrong-under-concurrent-hashing",
+                           "msg": f"{len(wrong)} of {len(results)} digests computed by {case['threads']} concurrent "
+                                  f"threads differ from the digest of the file's own bytes, e.g. {wrong[:3]}"})
+    evals, failures = contracts.snapshot()
+    return {"sig": ["concurrent", case["threads"], case["sizes"], case["algs"]], "nontrivial": True,
+            "violations": violations,
+            "obs": {"files_hashed": len(results), "concurrent_hashings": len(results),
+                    "yield_injections": stats["yields"], "contract_evals_hash_checksums": evals.get("hash_checksums", 0),
+                    "external_tool_digests": 0, "stored_digests_checked": 0},
+            "sample": {"concurrent_threads": case["threads"], "sizes": case["sizes"], "algs": list(algs)}}
 
 
 def run_dataset(case: dict, work: Path) -> dict:
